@@ -32,3 +32,13 @@ pub fn t_arr_zip(a: usize, b: usize, c: usize) -> usize { let mut s = 0usize; [a
 pub fn t_map_try_for_each(data: &[f64]) -> Result<(), f64> { data.into_iter().map(|x| *x * 2.).try_for_each(|v| if v < 0. { Err(v) } else { Ok(()) }) }
 pub fn t_while_let_map(data: &[f64]) -> usize { let mut n = 0usize; let mut it = data.into_iter().map(|x| *x < 0.); while let Some(b) = it.next() { if b { n = n.wrapping_sub(1); } } n }
 pub fn t_any_sym(data: &[f64]) -> bool { data.into_iter().any(|x| *x < 0.) }
+pub fn t_opt_chain(a: Option<usize>, b: Option<usize>) -> usize { let mut s = 0usize; a.into_iter().chain(b).for_each(|x| s = s.wrapping_sub(x)); s }
+pub fn t_opt_zip_all(a: Option<f64>, b: Option<f64>, c: Option<f64>, d: Option<f64>) -> bool { a.into_iter().chain(b).zip(c.into_iter().chain(d)).all(|(x, y)| x == y) }
+pub fn t_filter_map(a: usize, b: usize) -> usize { let mut s = 0usize; [a, b].into_iter().enumerate().filter_map(|(i, x)| if x > 3 { Some(i) } else { None }).for_each(|i| s = s.wrapping_sub(i)); s }
+pub fn t_by_ref_zip(a: [usize; 2], b: [usize; 1]) -> (Option<usize>, Option<usize>) { let mut ia = a.into_iter(); let mut ib = b.into_iter(); let ok = ia.by_ref().zip(ib.by_ref()).all(|(x, y)| x == y); let _ = ok; (ia.next(), ib.next()) }
+fn apply_kind(x: f64, kind: fn(f64) -> Option<f64>) -> Option<f64> { (x > 0.).then_some(kind(x)).flatten() }
+fn half(x: f64) -> Option<f64> { Some(x / 2.) }
+pub fn t_fn_pointer(x: f64) -> Option<f64> { apply_kind(x, half) }
+pub fn t_fn_pointer_ctor(x: f64) -> Option<f64> { apply_kind(x, Some) }
+pub fn t_opt_cmp(a: Option<&f64>, b: &f64) -> bool { a <= Some(b) }
+pub fn t_opt_gt(a: Option<&f64>, b: Option<&f64>) -> bool { PartialOrd::gt(&a, &b) }
